@@ -137,7 +137,7 @@ def register(R):
   R.isinstance_hook = lambda it, v, cname: (z3.BoolVal(False) if isinstance(v, VOpaque) and cname in ('LazyObject', 'LazyFn')
                                             else (_prev_hook(it, v, cname) if _prev_hook else None))      # a plain value is not a lazy object
   R.add(Contract(f'{LF}::LazyObject.__eq__', P, variant='plain-operand', types=dict(self='LazyObject', other='obj'), ret='bool',
-                 when=lambda it, a, k: isinstance(a[1], VOpaque),
+                 when=lambda it, a, k: isinstance(a[1], VOpaque), requires=['other is not self'],      # a plain value is not this lazy object
                  ensures=['result == False'], bounded='bounded_lazy_eval',
                  note='a lazy object never equals a plain value - and comparing them does not raise (D26: a hash collision in the result cache made it)'))
 
